@@ -8,6 +8,7 @@ import (
 	"go/token"
 	"go/types"
 	"math"
+	"regexp"
 	"strings"
 
 	"golang.org/x/tools/go/ssa"
@@ -380,6 +381,19 @@ func init() {
 				ex.unsupported("math.Pow of symbolic value")
 			}
 			return ex.tc.Const(64, math.Float64bits(math.Pow(f64(x.val), f64(y.val))))
+		},
+		// regexp.MatchString on concrete operands: evaluated natively (the pattern compiler is
+		// deterministic library code; with a symbolic operand the real code is executed)
+		"regexp.MatchString": func(ex *Exec, fn *ssa.Function, a []Value, site token.Pos) Value {
+			pat, s := a[0].(*StrV), a[1].(*StrV)
+			if !pat.Concrete() || !s.Concrete() {
+				return notHandled
+			}
+			m, err := regexp.MatchString(pat.s, s.s)
+			if err != nil {
+				return notHandled
+			}
+			return TupleV{ex.tc.Bool(m), IfaceV{}}
 		},
 		"math.archMax": func(ex *Exec, fn *ssa.Function, a []Value, site token.Pos) Value {
 			return ex.callFunction(fn.Pkg.Func("max"), a, nil, site) // the portable Go implementation
